@@ -12,6 +12,7 @@ import (
 	"path/filepath"
 	"sort"
 	"sync"
+	"sync/atomic"
 	"time"
 	"unicode"
 
@@ -270,6 +271,9 @@ func New(cfg Config) (*World, error) {
 	if cfg.Shards == 0 {
 		cfg.Shards = 1
 	}
+	if cleaned.Load() {
+		return nil, errors.New("svcworld: process is shutting down")
+	}
 	dir, err := os.MkdirTemp("/dev/shm", ScratchPrefix())
 	if err != nil {
 		return nil, err
@@ -371,12 +375,15 @@ func New(cfg Config) (*World, error) {
 	return w, nil
 }
 
+var cleaned atomic.Bool
+
 // ScratchPrefix is the per-process name prefix of every scratch directory of this package.
 func ScratchPrefix() string { return fmt.Sprintf("verif-svcworld-%d-", os.Getpid()) }
 
 // Cleanup removes every scratch directory this process created (call before exiting, also on
 // harness errors: os.Exit skips deferred World.Close calls of cases still running in parallel).
 func Cleanup() {
+	cleaned.Store(true) // cases still running in parallel must not create new directories any more
 	ms, _ := filepath.Glob(filepath.Join("/dev/shm", ScratchPrefix()+"*"))
 	for _, m := range ms {
 		_ = os.RemoveAll(m)
